@@ -558,7 +558,7 @@ def conc_episodes(seed, count, maxn=1500):
 def reload_episodes(seed, count):
     r = random.Random(seed ^ 0xEF15)
     eps = []
-    modes = ["full", "eps", "mmap"]
+    modes = ["full", "eps", "mmap", "eps8"]
     cases = [([], 0), ([], 9), ([4], 4), ([M], M), ([0, 0, 0], 0), ([1, 5, 10], 10)]
     k = 0
     while len(cases) < count:
